@@ -120,6 +120,7 @@ fn faults(labels: &[String], rng: &mut Rng) -> Vec<(&'static str, Vec<Node>)> {
         ("displacement-out-of-range", raw(*rng.pick(&["\tldd r0, Y+64", "\tstd Z+100, r1"]))),
         ("relative-target-out-of-range", raw(*rng.pick(&["\trjmp pc+3000", "\tbreq pc+100", "\tbrne pc-100", "\trcall pc-2100"]))),
         ("operand-count", raw(*rng.pick(&["\tadd r1", "\tnop r1", "\tldi r16", "\tmov r1, r2, r3"]))),
+        ("directive-operand-count", raw(*rng.pick(&[".byte 1, 2", ".device ATmega8, ATmega16", ".byte 2, 1, 0"]))),
         ("undefined-symbol-in-instruction", raw(*rng.pick(&["\tldi r16, no_such_symbol", "\tlds r0, no_such_symbol", "\trjmp no_such_label", "\tldi r16, low(no_such_symbol)"]))),
         // the undefined name sits where it cannot change the value: it is still an undefined name
         ("undefined-symbol-in-dead-operand", raw(*rng.pick(&["\tldi r16, 0 && no_such_symbol", "\tldi r16, 5 || no_such_symbol", "\tldi r16, 0 * no_such_symbol", ".db 1, 0 && no_such_symbol", ".dw 1 || no_such_symbol", ".set fresh_set_var = 0 && no_such_symbol", "\tldi r16, no_such_symbol & 0", "\tldi r16, (1 || no_such_symbol) + 1", ".dw no_such_symbol - no_such_symbol", "\tldi r16, 0 && (1 / 0)", ".db 1 || (1 % 0)"]))),
@@ -517,9 +518,22 @@ pub fn run(ctx: &Ctx) -> i32 {
             check_messages(ctx, &b, &mut rng);
         }
     });
+    // known finding (KNOWN_FINDINGS.txt): messages of macro bodies are listed after all top-level ones
+    if let Ok(src) = std::fs::read_to_string(fw::verif_root().join("findings").join("C15-message-order-with-macros.asm")) {
+        let out = fw::build_str(&src);
+        ctx.eval(1);
+        ctx.count("known_finding_probes", 1);
+        let order: Vec<&str> = match &out {
+            Outcome::Ok(b) => b.messages.iter().map(|m| if m.contains("in body") { "body" } else if m.contains("mid") { "mid" } else { "?" }).collect(),
+            _ => vec![],
+        };
+        if order != ["body", "mid", "body"] {
+            ctx.violation("diag/messages/order/macro-body-messages-after-top-level", format!("call / .message \"mid\" / call lists its messages as {:?}", order), json!({"source": src, "kind": "messages", "base": "", "witness": "findings/C15-message-order-with-macros.asm", "observed": out.brief()}));
+        }
+    }
     fw::finish(
         ctx,
-        "valid base programs of 5-40 lines (labels, instructions, data, .equ, .set, conditional blocks, three segments) x every insertion position on the assembling path (top level and inside the taken branch) x 23 kinds of single-line fault (syntax, unknown mnemonic/macro, register<->expression confusion, out-of-range immediate/register class/port/bit/displacement/relative target, operand count, undefined symbol in instruction/alias/data/.set/.if - also in an operand that cannot change the value (0 && x, 1 || x, 0 * x) -, duplicate label, out-of-range data, string in word directive, .error, division by zero): build must fail with an error containing the token `line: p`; per base every single-line fault kind once more inside the body of a macro (behind blank and comment-only lines, with and without parameters) that is called once, and a macro holding only .message/.warning lines (each must be reported with the number of the body line it is written on); per base 4 second definitions of an existing label appended behind a segment boundary (.org, .dseg, .eseg, .eseg then .cseg); plus 3 message placements per base (.message/.warning at top level and inside taken/untaken branches): images unchanged, message list equals the expected (text, line, order, kind distinguishable); distinct_nontrivial = distinct base programs; counters fault:* = faulty builds per kind",
+        "valid base programs of 5-40 lines (labels, instructions, data, .equ, .set, conditional blocks, three segments) x every insertion position on the assembling path (top level and inside the taken branch) x 24 kinds of single-line fault (syntax, unknown mnemonic/macro, register<->expression confusion, out-of-range immediate/register class/port/bit/displacement/relative target, operand count, undefined symbol in instruction/alias/data/.set/.if - also in an operand that cannot change the value (0 && x, 1 || x, 0 * x) -, duplicate label, out-of-range data, string in word directive, .error, division by zero): build must fail with an error containing the token `line: p`; per base every single-line fault kind once more inside the body of a macro (behind blank and comment-only lines, with and without parameters) that is called once, and a macro holding only .message/.warning lines (each must be reported with the number of the body line it is written on); per base 4 second definitions of an existing label appended behind a segment boundary (.org, .dseg, .eseg, .eseg then .cseg); plus 3 message placements per base (.message/.warning at top level and inside taken/untaken branches): images unchanged, message list equals the expected (text, line, order, kind distinguishable); distinct_nontrivial = distinct base programs; counters fault:* = faulty builds per kind",
         &["every program starts with a comment line so p >= 2 (PEG errors embed `line: 1`); for a duplicate label either defining line is accepted", "a fault inside a macro body is attributed to the body line it is written on (the line at fault); the order of body messages relative to top-level messages is not checked"],
     )
 }
